@@ -4,19 +4,19 @@ import json, subprocess, os
 props = {
  "C01": ("Node lifecycle proved as a ghost typestate monitor woven at every callback site of Run (and of CustomNode/NodeBuilder delegators): prep once with the run's store, exec only with prep's value, post at most once and iff exec/fallback produced a result, exactly one of action/error. All retry budgets, outcome scripts and payloads are symbolic; the retry loop is cut by an inductive invariant.",
          "A1 (callbacks do not reconfigure a running node), A2 (budget >= 1 and retry settings are pure views), T8, T9; nodes are non-typed-nil (okNode). Batch nodes are dispatched to runBatch whose own contract is verified under C06/C18.", "2.4, 6/C01"),
- "C02": ("Retry budget and fallback proved for Run and runExecWithRetries: every Exec site requires nExec < budget and a failed previous attempt; loop exit with error implies nExec == budget; fallback exactly once iff exhausted, with the prep value and the last attempt's error; decreases clause gives termination of the retry loop. Budget N is a symbolic integer >= 1 (not bounded by 8).",
+ "C02": ("Retry budget and fallback proved for Run and runExecWithRetries: every Exec site requires nExec < budget and a failed previous attempt; loop exit with error implies nExec == budget; fallback exactly once iff exhausted, with the prep value and the last attempt's error; decreases clause gives termination of the retry loop. Budget N is a symbolic integer >= 1 (not bounded by 8). 'Has a fallback' is specified as 'has an ExecFallback method' (hasMethod), independently of the interface the code asserts; batch callers pass the run's context, node and item unchanged.",
          "A2, T5/T7/T8 for the wait; non-retryable node <=> budget 1 by definition of budget().", "6/C02"),
  "C03": ("Flow routing proved against an abstract view nextNode(f,n,a) of the two-level transition map: Connect updates exactly one pair of the whole view (frame included) and keeps the representation invariant; Flow.Exec's monitor requires every Run call to target the ghost cursor, which follows nextNode; default-deny forbids touching any other node; Flow.Exec assigns nothing in the flow object.",
-         "A1, A5 (node values hashable, part of okNode), partial correctness (flows may cycle forever).", "6/C03"),
+         "A5 (node values hashable, part of okNode), partial correctness (flows may cycle forever). Callbacks may re-wire the running flow through Connect: the tables are havocked by every callback and only the representation invariant flowRep (which Connect is proved to maintain) is assumed afterwards, so 'the node most recently connected' is the table at the moment the node finishes.", "6/C03"),
  "C04": ("Error transparency proved as Is(err, callbackErr) postconditions at every early return of Run / runBatch (fmt.Errorf %w modelled by T9), identity of the child's error in Flow.Exec, and fail-stop by monitor guards (!failed before every child Run, phase guards in Run).",
          "T9 (fmt.Errorf/%w, errors.Is reflexive and transitive over wrapping); nesting depth by modularity (Flow.Exec verified against Run's contract).", "6/C04, 4/L4"),
  "C05": ("Cancellation proved with a monotone ghost boolean that may flip inside every callback and during a blocking select: pre-cancelled => no callback and Is(err, ctx.Err()); !cancelled at every Exec site and every child Run site; any observed cancellation => non-nil error matching ctx.Err().",
          "A3 (cancellation is observed only through ctx.Err()/Done()), T5, T8.", "6/C05"),
- "C06": ("Positional batch results: normalisation of the prep value, one runExecWithRetries call per index with items[i], slot i == slotOf(outcome i) as quantified loop invariants (sequential); for the pooled path each task is proved to write only its own slot with its own item's outcome, and submission is proved to bind task i to (i, items[i]) once, Wait before return. Post exactly once with items and results.",
+ "C06": ("Positional batch results: normalisation of the prep value, one runExecWithRetries call per index with items[i], slot i == slotOf(outcome i) as quantified loop invariants (sequential); for the pooled path each task is proved to write only its own slot with its own item's outcome, and submission is proved to bind task i to (i, items[i]) once, Wait before return, and what is returned is exactly the slots as they were when Wait returned (settled snapshot). Post exactly once with items and results.",
          "Sequential path: proved. Concurrent path: function-local contracts proved; 'for every schedule' rests on lemma L3 (L3step/L3final are SMT-checked implications over the task's frame and postcondition clauses) and on L2barrier + T2; that the lemma hypotheses faithfully abstract the clauses they cite, and the axioms T2-T4, are argued.", "6/C06, 4/L3"),
  "C07": ("Every item exactly once: ghost per-index call counters; continue mode without cancellation => every counter is 1 at Post (sequential: loop invariant; pooled: one Submit per index and the task calls runExecWithRetries exactly once unless stopped/cancelled); runExecWithRetries has no state besides locals; slot error is the last attempt's error or the fallback's outcome (identity, not merely Is).",
          "As C06 for the pooled path (L3).", "6/C07"),
- "C08": ("Concurrency bound: NewWorkerPool spawns exactly max(workers,1) goroutines of worker(p) (loop invariant spawned == k), queue capacity 2*workers; worker runs received tasks synchronously, one at a time, never spawns; Submit never runs a task; runBatch takes the pooled path iff concurrency > 0 and passes exactly that number; sequential path runs items in index order.",
+ "C08": ("Concurrency bound: NewWorkerPool spawns exactly max(workers,1) goroutines of worker(p) (loop invariant spawned == k); worker runs received tasks synchronously, one at a time, never spawns; Submit never runs a task; runBatch takes the pooled path iff concurrency > 0 and passes exactly that number; sequential path runs items in index order.",
          "Safety half proved function-locally; lifted to 'never more than c in flight on every schedule' by lemma L2 (counter system with SMT-checked steps L2submit/L2take/L2finish/L2bound; the correspondence of the steps to the cited clauses and T3-T5 are argued). The liveness half (c blocking executions do run simultaneously, no deadlock) is NOT decided by this technique: it follows from spawned == c plus runtime fairness, stated as an argument.", "6/C08, 8"),
  "C09": ("Stop-on-error: sequential: no runExecWithRetries call after a failing one (monitor guard !stopped), every skipped slot is an error result (this clause found defect D3, now fixed); pooled task: reads the stop flag under the mutex before executing, sets it under the mutex after a failure in stop mode, marks itself with an error when stopped.",
          "Pooled 'only already picked-up items still run' needs T1 ordering + L3 (argued).", "6/C09, 7/D3"),
@@ -40,7 +40,7 @@ props = {
          "-", "6/C18, 7/D2"),
  "C19": ("Configuration: every setting in option form (composed contract: constructor then application) and in builder form has the same postcondition field == value with a whole-struct frame, hence last-wins and form-independence; defaults proved for NewBaseNode/NewNode/NewBatchNode/NewWorkerPool; NewBaseNode/NewNode/NewBatchNode apply the collected options in index order, each exactly once, base options before custom ones.",
          "Unknown options may set any field of the node they receive (A1 for options); option application inside NewNode/NewBatchNode: the collected lists are proved to be the order-preserving sub-sequences of the argument list.", "6/C19"),
- "C20": ("Retry wait with a ghost clock: at every Exec site after the first, now >= end of previous attempt + wait (T7); no timer before the first attempt; the blocking receive on the timer always sits in a select with ctx.Done() whose branch returns Is(err, ctx.Err()) without further blocking operation or callback.",
+ "C20": ("Retry wait with a ghost clock: at every Exec site after the first, now >= end of previous attempt + wait (T7); no timer before the first attempt; the blocking receive on the timer always sits in a select with ctx.Done() whose branch returns Is(err, ctx.Err()) without further blocking operation or callback (an error built from context.Cause does not qualify). time.NewTimer/Reset are modelled like time.After.",
          "T7 stands for real elapsed time (not measured); T5, T8.", "6/C20"),
 }
 checks = []
